@@ -670,6 +670,24 @@ func (g *srvGen) next() ([]byte, []arpResp, *simClient, byte) {
 			}
 		}
 	}
+	if g.r2 != nil {
+		// a foreign host (or the owner itself) answers for a reserved address, inside or outside the dynamic range: the reservation's
+		// owner is then refused (NAK) like anybody else - the verification does not depend on where the address lies
+		for _, st := range c.statics {
+			ip := st[1].(uint32)
+			inPool := false
+			for _, a := range g.pool {
+				inPool = inPool || a == ip
+			}
+			if !inPool && g.r2.Intn(5) == 0 {
+				mac := []byte{0x02, 0xcc, 0, 0, 2, byte(ip)}
+				if g.r2.Intn(4) == 0 {
+					mac = st[0].([]byte)[:6]
+				}
+				arp = append(arp, arpResp{ip: ip, mac: mac, delay: time.Duration(1+g.r2.Intn(580)) * time.Millisecond})
+			}
+		}
+	}
 	if g.r2 != nil && g.r2.Intn(3) == 0 {
 		// an owner that misses the first or the first two requests of a probe and answers the next one: still inside the window
 		for i := range arp {
